@@ -11,45 +11,108 @@ server (`http_server.py`) of `Tahoe/Http/Marshal.lean`.
 namespace Tahoe.C31
 open Tahoe.Http
 
-/-
-Full statement (`http_read_eq_direct`): for every share content, offset and length the HTTP read path
-returns exactly `read_share_data(offset, length)`.  It is FALSE for `length = 0` (witness below: the client
-cannot build an empty `Range` header and raises `ValueError`, where the direct read returns `b""`) — listed as
-known finding `zero-length-read`.  Proved for every `length > 0`, including reads reaching or starting past the
-end of the share.
--/
+/-- the client variant in force (generated from the live `read_share_chunk`) does not raise on a zero-length
+read; reverting repair 04453c5 turns `Generated.Http.zeroLengthRead` into "raise" and breaks this theorem. -/
+theorem zero_length_read_does_not_raise : zeroRead ≠ .raise := by decide
 
-/-- zero-length read: the HTTP client raises, the direct read returns the empty string -/
-theorem http_read_eq_direct_counterexample :
-    httpRead [1, 2, 3] 1 0 = .valueError ∧ readShareData [1, 2, 3] 1 0 = [] := by decide
+/-- what that pin guards against: with the pre-04453c5 client a zero-length read raises `ValueError` in the
+client while the direct read returns the empty string -/
+theorem zero_length_read_raise_witness :
+    httpRead .raise [1, 2, 3] 1 0 = .valueError ∧ readShareData [1, 2, 3] 1 0 = [] := by decide
 
-/-- **HTTP range read = direct read**, for every content, offset and positive length (past the end: the server
-clips the end to the share length and answers 206 with the shorter body, or 204 when nothing is left, which
-the client maps to `b""` — exactly the truncation `read_share_data` performs). -/
-theorem http_read_eq_direct_partial (d : Bytes) (offset length : Nat) (h : 0 < length) :
-    httpRead d offset length = .data (readShareData d offset length) := by
-  unfold httpRead clientRangeHdr
-  rw [if_neg (by omega)]
-  simp only [readRange, List.length_cons, List.length_nil]
+/-- a range request for `reqLen > 0` bytes of which the caller keeps `length ≤ reqLen` -/
+theorem sent_read (d : Bytes) (offset reqLen length : Nat) (h : 0 < reqLen) (_hl : length ≤ reqLen) :
+    clientInterpretRead reqLen length (readRange (some (some (rangeFor offset reqLen))) d)
+      = .data ((readShareData d offset reqLen).take length) := by
+  simp only [readRange, rangeFor, List.length_cons, List.length_nil]
   have hneg : ¬ ((offset : Int) < 0) := by omega
   simp only [ne_eq, not_true_eq_false, if_false, Nat.lt_irrefl, hneg, Int.toNat_natCast]
-  by_cases hge : offset ≥ min (offset + length) d.length
+  by_cases hge : offset ≥ min (offset + reqLen) d.length
   · rw [if_pos hge]
     have : d.length ≤ offset := by omega
     simp [clientInterpretRead, readShareData, List.drop_eq_nil_of_le this]
   · rw [if_neg hge]
-    have hlen : (readShareData d offset (min (offset + length) d.length - offset)).length
-        = min (offset + length) d.length - offset := by
+    have hlen : (readShareData d offset (min (offset + reqLen) d.length - offset)).length
+        = min (offset + reqLen) d.length - offset := by
       simp [readShareData]; omega
-    have heq : readShareData d offset (min (offset + length) d.length - offset) = readShareData d offset length := by
+    have heq : readShareData d offset (min (offset + reqLen) d.length - offset) = readShareData d offset reqLen := by
       unfold readShareData
       rw [List.take_eq_take_iff]
       simp; omega
     simp only [clientInterpretRead]
     rw [if_neg (by omega), hlen, if_neg (by omega), heq]
 
-example : httpRead [10, 11, 12, 13, 14] 3 10 = .data [13, 14] ∧ httpRead [10, 11, 12, 13, 14] 5 2 = .data []
-    ∧ httpRead [10, 11, 12, 13, 14] 9 1 = .data [] ∧ httpRead [10, 11, 12, 13, 14] 1 2 = .data [11, 12] := by decide
+/-- **HTTP range read = direct read**, for every content, offset and length — zero, positive, reaching or
+starting past the end of the share — and for both non-raising client variants.  (Past the end: the server
+clips the end to the share length and answers 206 with the shorter body, or 204 when nothing is left, which the
+client maps to `b""` — exactly the truncation `read_share_data` performs.) -/
+theorem http_read_eq_direct (m : ZeroRead) (hm : m ≠ .raise) (d : Bytes) (offset length : Nat) :
+    httpRead m d offset length = .data (readShareData d offset length) := by
+  unfold httpRead httpReadOpt clientReadPlan
+  by_cases h0 : length = 0
+  · subst h0
+    have hz : readShareData d offset 0 = [] := by simp [readShareData]
+    cases m with
+    | raise => exact absurd rfl hm
+    | empty => simp [hz]
+    | probe =>
+      simp only [if_true]
+      rw [sent_read d offset 1 0 (by omega) (by omega), hz]
+      simp
+  · rw [if_neg h0]
+    simp only
+    rw [sent_read d offset length length (by omega) (Nat.le_refl _)]
+    have : (readShareData d offset length).length ≤ length := by simp [readShareData]; omega
+    rw [List.take_of_length_le this]
+
+/-- the variant the code has, instantiated -/
+theorem http_read_eq_direct_generated (d : Bytes) (offset length : Nat) :
+    httpRead zeroRead d offset length = .data (readShareData d offset length) :=
+  http_read_eq_direct zeroRead zero_length_read_does_not_raise d offset length
+
+example : httpRead .empty [10, 11, 12, 13, 14] 3 10 = .data [13, 14] ∧ httpRead .probe [10, 11, 12, 13, 14] 5 2 = .data []
+    ∧ httpRead .empty [10, 11, 12, 13, 14] 9 1 = .data [] ∧ httpRead .probe [10, 11, 12, 13, 14] 1 2 = .data [11, 12]
+    ∧ httpRead .probe [10, 11, 12, 13, 14] 2 0 = .data [] ∧ httpRead .empty [10, 11, 12, 13, 14] 2 0 = .data [] := by decide
+
+/-- **Missing share.**  With the one-byte probe, a read of a share that does not exist is answered 404 for every
+offset and length (the direct paths have no entry for it), and a read of an existing share is the direct read:
+both paths agree on every read. -/
+theorem http_read_opt_eq_direct_probe (share : Option Bytes) (offset length : Nat) :
+    httpReadOpt .probe share offset length =
+      match directReadOpt share offset length with
+      | none => .httpError 404
+      | some b => .data b := by
+  cases share with
+  | none =>
+    unfold httpReadOpt clientReadPlan directReadOpt
+    by_cases h0 : length = 0 <;> simp [h0]
+  | some d =>
+    have := http_read_eq_direct .probe (by decide) d offset length
+    simpa [httpRead, directReadOpt] using this
+
+/-- With the early return of 04453c5 the same holds except for one case: a zero-length read of a missing
+share (witness below).  Known finding `zero-length-read-missing-share`; repair proposed in
+`fixes/C31-zero-length-missing-share.diff` (the probe variant). -/
+theorem http_read_opt_eq_direct_empty_partial (share : Option Bytes) (offset length : Nat)
+    (h : 0 < length ∨ share.isSome) :
+    httpReadOpt .empty share offset length =
+      match directReadOpt share offset length with
+      | none => .httpError 404
+      | some b => .data b := by
+  cases share with
+  | none =>
+    have hl : length ≠ 0 := by
+      rcases h with h | h
+      · omega
+      · cases h
+    unfold httpReadOpt clientReadPlan directReadOpt
+    simp [hl]
+  | some d =>
+    have := http_read_eq_direct .empty (by decide) d offset length
+    simpa [httpRead, directReadOpt] using this
+
+theorem zero_length_missing_share_counterexample :
+    httpReadOpt .empty none 5 0 = .data [] ∧ directReadOpt none 5 0 = none := by decide
 
 /-- the server's range decision on its own: a parsed single `bytes=a-b` range (exclusive end `e`) gives 204
 when nothing of the share lies in it, else 206 carrying exactly the bytes `[a, min(e, len))`; anything else
